@@ -500,6 +500,7 @@ def run(ctx):
     ctx.attempt(lambda: _c11s.descriptor_rule(ctx, ctx.rule('R2.14', 'parameter descriptors (rho, thickness, moduli): every assignment raises Need_Update on the owner, also a tiny change and an array edited in place and assigned again; __get__ hands out a copy', min_instances=2)))
     from . import e2e_rules as _e2e
 
+    ctx.attempt(_e2e.heterogeneous_rule, ctx, 'R2.E3')
     ctx.attempt(_e2e.beam_rule, ctx, 'R2.E2')
     ctx.attempt(_e2e.operators_rule, ctx, 'R2.E1')
     from .c12 import coefficient_table_rule as _coefficient_table_rule
